@@ -32,7 +32,7 @@ WORKER = os.path.join(HERE, "c30_worker.py")
 
 RICH = ["x86_64", "arm", "riscv", "microblaze"]
 MID = ["or1k", "mips"]
-WEAK = ["xtensa", "msp430", "avr", "m68k"]
+WEAK = ["xtensa", "msp430"]  # avr/stm8/mcs6500 reject C ints, m68k hangs
 OPTS = [0, 1, 2, "s"]
 # march strings with options (the option part ends up in the object's arch id
 # and selects other instruction sets / calling conventions)
@@ -97,7 +97,7 @@ def run_worker(cfg, ops):
 
 
 def gen_subject(ch, sid, tier, chosen):
-    profile = ["rich", "basic", "tiny"][tier]
+    profile = ["rich", "basic", "tiny", "micro"][tier]
     # names are shared between the modules of a batch, sometimes with the
     # roles swapped (one module's function is another module's variable)
     fnp, glp = ch.pick([("f", "g"), ("f", "g"), ("g", "f"), ("lib", "entry")],
@@ -253,8 +253,9 @@ def gen_batch(seed, b):
     m = 3 + ch.draw(3, "nsubjects")
     # all subjects of a batch share a few targets: the per-target start-up
     # cost (instruction selector tables) is paid once per process
-    tier = ch.weighted([6, 2, 1], "tier")
-    targets = [RICH, RICH + MID, RICH + MID + WEAK][tier]
+    tier = ch.weighted([12, 4, 2, 3], "tier")
+    targets = [RICH, RICH + MID, RICH + MID + WEAK,
+               ["xtensa", "msp430", "or1k", "mips"]][tier]
     nt = 1 + ch.weighted([1, 3, 2], "ntargets")
     chosen = ch.perm(targets, "targets")[:nt]
     chosen = [ch.pick(VARIANTS.get(t, [t]), "variant") for t in chosen]
@@ -298,6 +299,7 @@ def compare_batch(batch, results):
     mismatches[(op index, kind, runA, posA, runB, posB)], signatures)"""
     seen = {}
     mism = []
+    timeouts = set()
     execs = 0
     ok = 0
     sigs = set()
@@ -310,11 +312,17 @@ def compare_batch(batch, results):
             hist = hashlib.sha256(repr(run["seq"][:pos]).encode()).hexdigest()
             sigs.add((batch["ops"][i]["id"], cfg["hashseed"],
                       cfg.get("idhash"), cfg.get("noise"), hist[:12]))
+            if one["digests"].get("compile") == "TIMEOUT":
+                # wall-clock guard of the worker fired: says nothing about
+                # determinism; the subject is not compared at all
+                timeouts.add(i)
+                continue
             first = seen.setdefault(i, (r, pos, one["digests"]))
             if first[2] != one["digests"]:
                 kinds = sorted(k for k in set(first[2]) | set(one["digests"])
                                if first[2].get(k) != one["digests"].get(k))
                 mism.append((i, kinds, first[0], first[1], r, pos))
+    mism = [m for m in mism if m[0] not in timeouts]
     return execs, ok, mism, sigs
 
 # ------------------------------------------------------------ minimisation
